@@ -30,6 +30,7 @@ def rules(ctx):
     c124(ctx)
     c125(ctx)
     c126(ctx)
+    c127(ctx)
     C09.c096(ctx)
     # "each batch exactly once and whole" under concurrent appends rests on the coalescing queue handing every input to the core once
     from . import C18
@@ -287,6 +288,54 @@ def c126(ctx):
                   "the reader's frame-size bound (%s) is at least the largest batch the writer admits (%d)" % (min(vals) if vals else None, wmax),
                   "next_header rejects frames larger than %s but the writer admits batches of up to %d bytes (check_batch_size), and a batch that starts on a block "
                   "boundary is framed whole: an intact, acknowledged log is reported corrupt" % (min(vals) if vals else None, wmax), pt=p)
+
+
+def c127(ctx):
+    R = "C12.7"
+    ctx.declare(R, "a log whose write failed takes no more batches: a failed write can leave part of a frame in the file, and whatever is appended and "
+                   "acknowledged afterwards sits behind that torn frame, where no reader reaches it")
+    LB = r"log::LogBuilder$"
+    ap = ctx.fn(R, LOG + "LogBuilder::append")
+    if not ap:
+        return
+    # the flag: a bool field of LogBuilder that append reads before it writes anything
+    inner = P.call_points(ap, r"sst::log::LogBuilder::_append$|sst::log::LogBuilder::(write|write_header|append_split)$")
+    ctx.floor(R, "LogBuilder::append: calls that write", len(inner), 1)
+    flags = set()
+    for pt in inner:
+        for bb, lab, srcs in K.guards(ap, pt):
+            for x in srcs:
+                if x["k"] == "field" and re.search(LB, strip_generics(x.get("owner", ""))) and x.get("ty", "bool") == "bool":
+                    flags.add(x["f"])
+    ctx.check(R, ap, "failure-refuses-appends", bool(flags), "append writes only while the builder's failure flag (%s) is clear" % ", ".join(sorted(flags)),
+              "LogBuilder::append writes without asking whether an earlier write of this builder failed: after a write error in the middle of a frame "
+              "later batches are accepted and acknowledged behind the torn frame (ConcurrentLogBuilder's own `poison` flag is written and never read)",
+              pt=inner[0] if inner else None)
+    # every write of the builder records its failure in that flag
+    n = 0
+    for f in sorted(ctx.prog.fns.values(), key=lambda f: f.key):
+        if f.crate != "sst" or not f.skey.startswith("sst::log::LogBuilder::"):
+            continue
+        for pt in P.call_points(f, r"BufWriter.* as std::io::Write>::(write_all|write|flush)$|std::io::Write::write_all$"):
+            n += 1
+            if not flags:
+                continue
+            ws = [w for fl in flags for w in P.field_writes(f, LB, fl)]
+            # some store of the flag is taken on an edge that depends on the result of this very call (directly, or through a wrapper
+            # such as io_result_with_context that is handed the result)
+            def depends(srcs):
+                for x in srcs:
+                    if x["k"] != "call":
+                        continue
+                    if x["pt"] == pt:
+                        return True
+                    if any(y["k"] == "call" and y["pt"] == pt for a in x["t"]["args"] for y in P.origins(f, a)):
+                        return True
+                return False
+            q = None if any(depends(srcs) for w in ws for _bb, _lab, srcs in K.guards(f, w)) else [("no store of the failure flag depends on this call", pt)]
+            ctx.check(R, f, "failure-recorded", q is None, "a failed %s sets the failure flag before the error is returned" % P.short(callee_skey(P.term_at(f, pt))),
+                      "%s can return the error of a failed write without recording it in the builder" % f.skey, pt=pt)
+    ctx.floor(R, "LogBuilder: writes to the output", n, 2)
 
 
 def c125(ctx):
